@@ -240,7 +240,25 @@ def gen_case(rng, pid, tier):
             free.append('eps')
         else:
             free.append([rng.choice([1, 10, 100, 1000, 12345]) for _ in range(3)])
-    return {'cell': cell, 'rm': rm, 'tree': tree, 'free': free, 'asg': _gen_asg(rng, malformed)}
+    # instances that reach their allocation by a MOVE (Cell.add_app on an instance that already belongs to
+    # another allocation, as Loader.load_app does when the assignment changed) and instances that are
+    # removed again (Cell.remove_app): [id, index of the first allocation] / [id, index, prio, demand]
+    ids = []
+
+    def collect(t):
+        ids.extend(a['id'] for a in t['apps'])
+        for s_ in t['subs']:
+            collect(s_)
+    collect(tree)
+    moves, drops = [], []
+    if ids and rng.random() < 0.35:
+        for i in rng.sample(ids, min(len(ids), rng.randint(1, 3))):
+            moves.append([i, rng.randint(0, 7)])
+        for k in range(rng.randint(0, 2)):
+            drops.append([90000 + k, rng.randint(0, 7), rng.randint(0, 100), [rng.randint(0, 5) for _ in range(3)],
+                          rng.randint(0, 7) if rng.random() < 0.5 else None])
+    return {'cell': cell, 'rm': rm, 'tree': tree, 'free': free, 'asg': _gen_asg(rng, malformed),
+            'moves': moves, 'drops': drops}
 
 
 # ---- shrinking: the ops are the instances --------------------------------------------------------
@@ -492,7 +510,10 @@ def _run_queue(case, run, sch, np):
         for ad in t['apps']:
             app = sch.Application(aname(ad['id']), ad['prio'], list(ad['dem']), 'aff%d' % ad['id'])
             app.global_order = ad['ord']
-            cell.add_app(a, app)
+            if ad['id'] in moved:
+                pending.append((app, a))          # joins `a` later, coming from another allocation
+            else:
+                cell.add_app(a, app)
             names.add(app.name)
             napps[0] += 1
         ti = {'alloc': a, 'names': names, 'path': path, 't': t}
@@ -500,8 +521,25 @@ def _run_queue(case, run, sch, np):
         for i, s in enumerate(t['subs']):
             a.add_sub_alloc('s%d' % i, mk(s, path + [i]))
         return a
+    moved = {m[0]: m[1] for m in case.get('moves', [])}
+    pending = []
     root = mk(case['tree'], [])
     root.path = ['root']
+    # moves: first into some other allocation, then Cell.add_app into the final one
+    for app, final in pending:
+        first = info[moved[aid(app.name)] % len(info)]['alloc']
+        cell.add_app(first, app)
+        cell.add_app(final, app)
+        run.tags.add('moved' if first is not final else 'moved-same')
+    # instances added (possibly moved once) and removed again
+    for d in case.get('drops', []):
+        app = sch.Application(aname(d[0]), d[2], list(d[3]), 'aff%d' % d[0])
+        app.global_order = 100000 + d[0]
+        cell.add_app(info[d[1] % len(info)]['alloc'], app)
+        if d[4] is not None:
+            cell.add_app(info[d[4] % len(info)]['alloc'], app)
+        cell.remove_app(app.name)
+        run.tags.add('dropped')
     # really place the instances that are to be `running` (first labelled server that takes them)
     target = [s for n, s in sorted(servers.items()) if 'p' in s.labels]
     for ti in info:
